@@ -101,10 +101,10 @@ def explore_tree(st, label, factory, values, pairs):
     # results of earlier validations are values too (chained validation): feed them back, alone and nested
     fed = 0
     for n, v in enumerate(values):
-        if base[n][0] != impl.ACCEPT or not isinstance(v, (dict, list)) or fed >= (3 if _TIER[0] == 'quick' else 8):
+        if base[n][0] != impl.ACCEPT or not isinstance(v, (dict, list)) or fed >= (2 if _TIER[0] == 'quick' else 8):
             continue
         fed += 1
-        for pname, probe in [("same-element", target)] + result_probes():
+        for pname, probe in [("same-element", target)] + (result_probes() if _TIER[0] != "quick" else result_probes()[:2]):
             for wname, wrap in (("bare", lambda r: r), ("in-member", lambda r: {"people": [r], "a": r})):
                 _, r = impl.do_call(target, copy.deepcopy(v), copy_value=False)
                 before = impl.canon_result(r)
@@ -190,8 +190,11 @@ def work(item):
         mk = 2 if (item[2] - item[1]) and _TIER[0] == "quick" else 3
         trees = _CACHE.setdefault(mk, E.all_trees(mk))
         values = VAL.V + VAL.V_OBJ
-        for label, factory in trees[item[1]:item[2]]:
-            explore_tree(st, label, factory, values, PAIR_IDX_DSL if not label.split("(")[0] in E.CLASSES else (PAIR_IDX_DSL[::2] if _TIER[0] == "thorough" else PAIR_IDX_DSL[::3]))
+        for tn, (label, factory) in enumerate(trees[item[1]:item[2]]):
+            pairs = PAIR_IDX_DSL if not label.split("(")[0] in E.CLASSES else (PAIR_IDX_DSL[::2] if _TIER[0] == "thorough" else PAIR_IDX_DSL[::3])
+            if _TIER[0] == "quick" and "(" in label and label.count("=") >= 2 and (item[1] + tn) % 3 != _SEED[0] % 3:
+                pairs = pairs[::4]  # two-keyword simple elements: the depth-2 differential on a seed-rotated third, a quarter of the pairs elsewhere
+            explore_tree(st, label, factory, values, pairs)
             if st.c["states"] % 41 == 1:
                 st.sample({"tree": label, "calls": len(values)})
         # parent observed while only the child is used
@@ -222,6 +225,7 @@ def _pc():
 
 
 _TIER = ["quick"]
+_SEED = [0]
 
 
 def replay(case):
@@ -250,6 +254,10 @@ def _main():
             _TIER[0] = sys.argv[i + 1]
     if os.environ.get("VERIF_TIER") and "--tier" not in sys.argv:
         _TIER[0] = os.environ["VERIF_TIER"]
+    try:
+        _SEED[0] = int(os.environ.get("VERIF_SEED", "0") or 0)
+    except ValueError:
+        pass
     return runner.main(sys.modules[__name__])
 
 
